@@ -40,6 +40,15 @@ def _state():
     if MODE == "dirty":
         # the previous document switched dialect AND ended inside an indented doc string; a new parse starts
         return State(default=D, history=[("lang", OTHER), ("touch", "x"), ("open", '      """'), ("touch", "y"), ("reset",)])
+    if MODE == "badheader":
+        # the previous document had a header naming an unknown dialect (it was rejected); a new parse starts
+        return State(default=D, history=[("touch", "x"), ("langbad", "zz-nope"), ("touch", "y"), ("reset",)])
+    if MODE == "badheader-same-doc":
+        # collecting mode carries on after the unknown-dialect header: the default dialect stays in force in the same document
+        return State(default=D, history=[("langbad", "zz-nope")])
+    if MODE == "badheader-after-switch":
+        # a valid header switched to OTHER, then an unknown one: OTHER stays in force until the next parse; then the default again
+        return State(default=D, history=[("lang", OTHER), ("langbad", "zz-nope"), ("reset",)])
     if MODE == "same":
         # a header naming the dialect that is already in force
         return State(default=D, history=[("touch", "x"), ("lang", D)])
